@@ -194,7 +194,7 @@ class Discharger:
                     if cause:
                         return ("D-HANDOFF", cause)
             # D-POISON
-            if o[0] == "call" and (o[1] == LOCK or o[1] in (CV_WAIT, CV_WAIT_T)):
+            if o[0] == "call" and (o[1] == LOCK or o[1] in (CV_WAIT, CV_WAIT_T) + CV_WAIT_WHILE):
                 if poison_phase:
                     return self.poison(f, bb, t, o)
                 return ("DEFER-POISON", "")
@@ -505,7 +505,19 @@ class Discharger:
             # an application-supplied &str parameter of a public API (not client input)
             if x[0] == "downcast" or x[0] == "field" or x[0] == "arg":
                 root = [y for y in origin_walk(x) if y[0] == "arg"]
-                if root and f.rec.get("vis_pub") and all("&str" in f.local_ty(y[1]) or "Option<&str>" in f.local_ty(y[1]) for y in root):
+                def str_param(y):
+                    ty = f.local_ty(y[1])
+                    if re.search(r"&('\w+ )?str\b", ty):
+                        return True
+                    # a struct of the crate that bundles the printing parameters: the field read is a &str / Option<&str>
+                    a_ = self.facts.adts.get(re.sub(r"<.*$", "", ty.lstrip("&")))
+                    if a_ is not None and a_["kind"] == "Struct" and not ty.startswith("std::"):
+                        names = {z[2] for z in origin_walk(x) if z[0] == "field"}
+                        tys = [fl["ty"] for fl in a_["variants"][0]["fields"] if fl["name"] in names]
+                        return bool(tys) and all(re.search(r"&('\w+ )?str\b", t_) for t_ in tys)
+                    return False
+                api = f.rec.get("vis_pub") or f.id in shared.printers(self.facts)
+                if root and api and all(str_param(y) for y in root):
                     descs.append("application-supplied &str (not client input)")
                     self.ctx.assume("the application passes an ASCII protocol name to Request::upgrade")
                     continue
